@@ -33,13 +33,13 @@ Fixpoint remove_items (s : schema) (extract : bool) (tr : typeref) (toRemove : p
                          let has := match e with Some e => ps_has [e] toRemove | None => false end in
                          let subset := match e with Some e => ps_with_prefix e toRemove | None => ps_empty_set end in
                          if has && negb extract then go rest
-                         else
-                           let first :=
-                             if has then [remove_items s extract (list_elem t) toRemove item] else [] in
-                           if negb (ps_empty subset) then
-                             first ++ remove_items s extract (list_elem t) subset item :: go rest
-                           else if extract then first ++ go rest
-                           else first ++ item :: go rest
+                         else if has && ps_empty subset then
+                           (* extracting an item that is selected with nothing beneath it *)
+                           remove_items s extract (list_elem t) toRemove item :: go rest
+                         else if negb (ps_empty subset) then
+                           remove_items s extract (list_elem t) subset item :: go rest
+                         else if extract then go rest
+                         else item :: go rest
                      end) l in
                 match items with [] => VNull | _ => VList items end
           | _ => VNull
